@@ -93,6 +93,8 @@ def main(tier):
     # ... and with lookups, value constructions and failing calls between the registrations (a registration decides what every LATER call sees)
     hist_q = regtrace.random_histories(random.Random(common.seed() + 141), 1000 if thorough else 200, 40, queries=True)
     regtrace.validate(rep, bd, hist_q, "seeded deep histories of registrations interleaved with queries and value constructions", "deepq")
+    hist_i = regtrace.inspected_histories(random.Random(common.seed() + 142), 300 if thorough else 60, 12)
+    regtrace.validate(rep, bd, hist_i, "step-by-step inspection: a battery of lookups and constructions after every registration call", "inspect")
     # the repository's own test-suite as a source of histories: every UnitDatabase instance a test creates is one recorded history
     # (registrations, rejected registrations, top-level queries; projected registry after each call while it is small)
     sev, sinfo = regtrace.suite_history(bd)
